@@ -321,7 +321,19 @@ sim::RunResult run(const Json& sc) {
           break;
         }
       }
-    } else if (!damaged && !rfault) {
+    } else if (!rfault && !sc["easy_party"].as_bool()) {
+      // binary, any file (valid, damaged, hostile header fields): the stated lengths count the terminating NUL, so a delivered
+      // name (table) of the stated length stands in the file followed by a NUL byte
+      for (auto& vr : res.vecs) {
+        if (vr.what != 'i' && vr.what != 'd') continue;
+        if (bytes.find(vr.name + std::string(1, '\0')) == std::string::npos || (!vr.table.empty() && bytes.find(vr.table + std::string(1, '\0')) == std::string::npos)) {
+          v.set("SUFFIX_LENGTH_MISMATCH", "binary-unterminated", "binary suffix delivered with name '" + vr.name.substr(0, 40) + "' (" + std::to_string(vr.name.size()) + " chars) and table of " + std::to_string(vr.table.size()) +
+                " chars: the file holds no such NUL-terminated string (a name / table not terminated within its stated length runs into what follows)");
+          break;
+        }
+      }
+    }
+    if (bin && !damaged && !rfault) {
       size_t k = 0;
       for (auto& vr : res.vecs) {
         if (vr.what != 'i' && vr.what != 'd') continue;
